@@ -339,14 +339,17 @@ class ConcurrentExecutor(ABC, Generic[CallableType, ResultType]):
             result = future.result()
             exe_state.complete(result)
             self.counters.complete_task()
-        except OrphanedChildException:
+        except OrphanedChildException as e:
             # Parent already completed and returned.
             # State is already RUNNING, which _create_result() marked as STARTED
-            # Just log and exit - no state change needed
             logger.debug(
                 "Terminating orphaned branch %s without error because parent has completed already",
                 exe_state.index,
             )
+            # Either execute() has returned already (nobody looks at this any more), or this whole
+            # executor runs inside an orphaned branch: unwind it instead of waiting for ever.
+            self._fatal_exception = e
+            self._completion_event.set()
             return
         except TimedSuspendExecution as tse:
             exe_state.suspend_with_timeout(tse.scheduled_timestamp)
